@@ -14,6 +14,7 @@ Require Import RV.Model.Base RV.Model.Slot RV.Gen.Crc16Tab RV.Model.SlotGen.
 Require Import RV.Proofs.SlotProofs RV.Proofs.SlotGenProofs.
 Require Import RV.Model.BuilderGraph RV.Model.BuilderSem RV.Model.BuilderChecks RV.Gen.Builders.
 Require Import RV.Proofs.BuilderProofs RV.Proofs.BuilderGenProofs.
+Require Import RV.Model.BuilderGen. (* the observer's check_case: built (and kept consistent) with the property *)
 Import ListNotations.
 Open Scope N_scope.
 
